@@ -46,11 +46,12 @@ __CPROVER_ensures(vf_wl_waits == __CPROVER_old(vf_wl_waits) + 1 && vf_wl_which =
 __CPROVER_ensures(vf_clock == __CPROVER_old(vf_clock) + 2 && vf_t_wl_wait == vf_clock - 1 && vf_t_release == vf_clock)
 __CPROVER_ensures(VF_WL_WAIT_POST);
 
+double vf_wl_deadline;
 static inline ABT_bool ABTI_waitlist_wait_timedout_and_unlock(ABTI_local **pp_local, ABTI_waitlist *p_waitlist, ABTD_spinlock *p_lock,
                                                               double target_time, ABT_sync_event_type sync_event_type, void *p_sync)
 __CPROVER_requires(vf_lock_held == 1 && vf_lock_which == p_lock)
 __CPROVER_requires(VF_WL_WAIT_PRE)
-__CPROVER_assigns(*pp_local, vf_lock_held, vf_releases, vf_clock, vf_t_release, vf_wl_waits, vf_t_wl_wait, vf_wl_which, vf_wl_timedout, vf_wl_len
+__CPROVER_assigns(*pp_local, vf_lock_held, vf_releases, vf_clock, vf_t_release, vf_wl_waits, vf_t_wl_wait, vf_wl_which, vf_wl_timedout, vf_wl_len, vf_wl_deadline
 #ifdef VF_WL_WAIT_HAVOC
                   , VF_WL_WAIT_HAVOC
 #endif
@@ -58,6 +59,7 @@ __CPROVER_assigns(*pp_local, vf_lock_held, vf_releases, vf_clock, vf_t_release, 
 __CPROVER_ensures(vf_lock_held == 0 && vf_releases == __CPROVER_old(vf_releases) + 1)
 __CPROVER_ensures(vf_wl_waits == __CPROVER_old(vf_wl_waits) + 1 && vf_wl_which == p_waitlist)
 __CPROVER_ensures(vf_clock == __CPROVER_old(vf_clock) + 2 && vf_t_wl_wait == vf_clock - 1 && vf_t_release == vf_clock)
+__CPROVER_ensures(vf_wl_deadline == target_time) /* the absolute deadline the wait list will compare the clock with */
 __CPROVER_ensures((__CPROVER_return_value == ABT_TRUE || __CPROVER_return_value == ABT_FALSE) && vf_wl_timedout == (int)__CPROVER_return_value)
 __CPROVER_ensures(VF_WL_WAIT_POST);
 
